@@ -293,12 +293,18 @@ func Clone(v amf0ref.Val) amf0ref.Val {
 }
 
 type editNode struct {
-	lib   amf0.Amf0
-	m     *amf0ref.Val
-	depth int
+	lib    amf0.Amf0
+	m      *amf0ref.Val
+	depth  int
+	parent setter // the container lib was obtained from (nil at the root), under key
+	key    string
 }
 
 func collect(a amf0.Amf0, m *amf0ref.Val, depth int, noStrict bool, out *[]editNode) {
+	collectAt(a, m, depth, noStrict, out, nil, "")
+}
+
+func collectAt(a amf0.Amf0, m *amf0ref.Val, depth int, noStrict bool, out *[]editNode, parent setter, key string) {
 	switch m.K {
 	case amf0ref.Null, amf0ref.Undefined:
 		return
@@ -307,7 +313,7 @@ func collect(a amf0.Amf0, m *amf0ref.Val, depth int, noStrict bool, out *[]editN
 			return
 		}
 	}
-	*out = append(*out, editNode{a, m, depth})
+	*out = append(*out, editNode{a, m, depth, parent, key})
 	c, ok := a.(setter)
 	if !ok {
 		return
@@ -320,7 +326,7 @@ func collect(a amf0.Amf0, m *amf0ref.Val, depth int, noStrict bool, out *[]editN
 		}
 		seen[k] = true
 		if child := c.Get(k); child != nil {
-			collect(child, &m.Props[i].Val, depth+1, noStrict, out)
+			collectAt(child, &m.Props[i].Val, depth+1, noStrict, out, c, k)
 		}
 	}
 }
@@ -346,11 +352,35 @@ func Mutate(a amf0.Amf0, m *amf0ref.Val, sel uint64, noStrict bool) string {
 	}
 	n := all[sel%uint64(len(all))]
 	sel /= uint64(len(all))
+	// Whether the pointer Get hands out is a live view of the stored value or a copy is not promised: when the overwrite does
+	// not show in the container, the edited value is stored with Set; and if the tree still does not show the edit
+	// (a Get that copies whole subtrees), nothing is claimed to have been edited.
+	backup := Clone(*m)
+	settle := func(what string) string {
+		if n.parent != nil {
+			nb, e1 := n.lib.MarshalBinary()
+			cur := n.parent.Get(n.key)
+			var cb []byte
+			var e2 error
+			if cur != nil {
+				cb, e2 = cur.MarshalBinary()
+			}
+			if cur == nil || e1 != nil || e2 != nil || !bytes.Equal(nb, cb) {
+				setOn(n.parent, n.key, n.lib)
+				what += " (stored with Set: the pointer from Get is not a view)"
+			}
+		}
+		if Same(a, *m) != nil {
+			*m = backup
+			return ""
+		}
+		return what
+	}
 	switch x := n.lib.(type) {
 	case *amf0.Number:
 		n.m.Num = numClasses[sel%uint64(len(numClasses))] ^ 0x10
 		*x = amf0.Number(math.Float64frombits(n.m.Num))
-		return fmt.Sprintf("number at depth %d overwritten", n.depth)
+		return settle(fmt.Sprintf("number at depth %d overwritten", n.depth))
 	case *amf0.Boolean:
 		if n.m.Bool != 0 {
 			n.m.Bool = 0
@@ -358,7 +388,7 @@ func Mutate(a amf0.Amf0, m *amf0ref.Val, sel uint64, noStrict bool) string {
 			n.m.Bool = 1
 		}
 		*x = amf0.Boolean(n.m.Bool != 0)
-		return fmt.Sprintf("boolean at depth %d toggled", n.depth)
+		return settle(fmt.Sprintf("boolean at depth %d toggled", n.depth))
 	case *amf0.String:
 		s := append(append([]byte{}, n.m.Str...), "+edited"...)
 		if len(s) > 65535 {
@@ -366,7 +396,7 @@ func Mutate(a amf0.Amf0, m *amf0ref.Val, sel uint64, noStrict bool) string {
 		}
 		n.m.Str = s
 		*x = amf0.String(s)
-		return fmt.Sprintf("string at depth %d overwritten", n.depth)
+		return settle(fmt.Sprintf("string at depth %d overwritten", n.depth))
 	}
 	key := fmt.Sprintf("edit%d", sel%7)
 	for has(n.m, key) {
@@ -388,6 +418,17 @@ func Mutate(a amf0.Amf0, m *amf0ref.Val, sel uint64, noStrict bool) string {
 	}
 	n.m.Props = append(n.m.Props, amf0ref.Prop{Key: []byte(key), Val: val})
 	return fmt.Sprintf("property set on a %v at depth %d", n.m.K, n.depth)
+}
+
+func setOn(c amf0.Amf0, key string, v amf0.Amf0) {
+	switch x := c.(type) {
+	case *amf0.Object:
+		x.Set(key, v)
+	case *amf0.EcmaArray:
+		x.Set(key, v)
+	case *amf0.StrictArray:
+		x.Set(key, v)
+	}
 }
 
 func has(m *amf0ref.Val, key string) bool {
